@@ -42,3 +42,45 @@ struct need_rehash _ZNKSt8__detail20_Prime_rehash_policy14_M_need_rehashEmmm(voi
   if (ne + ni > nb) { size_t n = ne + ni, g = nb * 2; r.b = 1; r.n = (n > g ? n : g) + 1; }
   return r;
 }
+/* std::_Hash_bytes (libstdc++ hash_bytes.cc, 64-bit: a Murmur variant) — the exact function, so that std::hash<std::string> and with it the
+   iteration order of std::unordered_* containers is the same in the interpreter and in the natively compiled harness */
+static size_t hb_shift_mix(size_t v) { return v ^ (v >> 47); }
+size_t _ZSt11_Hash_bytesPKvmm(const void* ptr, size_t len, size_t seed) {
+  const size_t mul = (((size_t)0xc6a4a793UL) << 32UL) + (size_t)0x5bd1e995UL;
+  const unsigned char* buf = (const unsigned char*)ptr;
+  const size_t len_aligned = len & ~(size_t)0x7;
+  const unsigned char* end = buf + len_aligned;
+  size_t hash = seed ^ (len * mul);
+  for (const unsigned char* p = buf; p != end; p += 8) {
+    size_t w = 0; for (int i = 7; i >= 0; i--) w = (w << 8) + p[i];
+    const size_t data = hb_shift_mix(w * mul) * mul;
+    hash ^= data; hash *= mul;
+  }
+  if ((len & 0x7) != 0) {
+    int n = (int)(len & 0x7); size_t data = 0; --n; do data = (data << 8) + end[n]; while (--n >= 0);
+    hash ^= data; hash *= mul;
+  }
+  hash = hb_shift_mix(hash) * mul; hash = hb_shift_mix(hash);
+  return hash;
+}
+size_t _ZSt15_Fnv_hash_bytesPKvmm(const void* ptr, size_t len, size_t hash) {
+  const unsigned char* p = (const unsigned char*)ptr;
+  for (; len; --len) { hash ^= (size_t)*p++; hash *= (size_t)1099511628211UL; }
+  return hash;
+}
+struct prime_policy { float max_load; size_t next_resize; };
+size_t _ZNKSt8__detail20_Prime_rehash_policy11_M_next_bktEm(struct prime_policy* self, size_t n) {
+  static const size_t primes[] = { 2, 3, 5, 7, 11, 13, 17, 19, 23, 29, 31, 37, 41, 43, 47, 53, 59, 61, 67, 71, 73, 79, 83, 89, 97, 103, 109, 113, 127, 137, 139, 149, 157, 167, 179, 193, 199, 211, 227, 241, 257, 277, 293, 313, 337, 359, 383, 409, 439, 467, 503, 541, 577, 619, 661, 709, 761, 823, 887, 953, 1031, 1109, 1193, 1289, 1381, 1493, 1613, 1741, 1879, 2029, 2179, 2357, 2549, 2753, 2971, 3209, 3469, 3739, 4027, 4349, 4703, 5087, 5503, 5953, 6427, 6949, 7517, 8123, 8783, 9497, 10273, 11113, 12011, 12983, 14033, 15173, 16411, 17749, 19183, 20753, 22447, 24281, 26267, 28411, 30727, 33223, 35933, 38873, 42043, 45481, 49201, 53201, 57557, 62233, 67307, 72817, 78779, 85229, 92203, 99733, 107897, 116731, 126271, 136607 };
+  size_t r = primes[sizeof primes / sizeof primes[0] - 1];
+  for (size_t i = 0; i < sizeof primes / sizeof primes[0]; i++) if (primes[i] >= n) { r = primes[i]; break; }
+  self->next_resize = (size_t)((float)r * self->max_load);
+  return r;
+}
+/* std::list node hooks */
+struct lnb { struct lnb* next; struct lnb* prev; };
+void _ZNSt8__detail15_List_node_base7_M_hookEPS0_(struct lnb* self, struct lnb* pos) { self->next = pos; self->prev = pos->prev; pos->prev->next = self; pos->prev = self; }
+void _ZNSt8__detail15_List_node_base9_M_unhookEv(struct lnb* self) { struct lnb* n = self->next; struct lnb* p = self->prev; p->next = n; n->prev = p; }
+void _ZNSt8__detail15_List_node_base11_M_transferEPS0_S1_(struct lnb* self, struct lnb* first, struct lnb* last) {
+  if (self != last) { last->prev->next = self; first->prev->next = last; self->prev->next = first;
+    struct lnb* tmp = self->prev; self->prev = last->prev; last->prev = first->prev; first->prev = tmp; }
+}
